@@ -1,3 +1,3 @@
 import CobaVerif.Driver.Loop
--- stub: replaced when the C20 model exists
-def main : IO Unit := Coba.J.runLoop (fun _ => .error "C20 driver not implemented")
+import CobaVerif.Driver.C20
+def main : IO Unit := Coba.J.runLoop Coba.C20.Driver.handle
